@@ -175,7 +175,9 @@ fn rays_for(v: &[Point2]) -> Vec<Ray2> {
         for oy in [y0 - 3.0, cy, y1 + 2.0, y0, y1] { for dy in [1.0, -1.0, 0.5, -4.0] { rays.push(Ray2::new(p(c, oy), Vector2::new(0.0, dy))); } }
     }
     // oblique, dyadic slopes: through vertices (every third one plus both ends) and through quarter-offset points
-    let dirs = [(1.0, 1.0), (1.0, -1.0), (2.0, 1.0), (1.0, -0.5), (-1.0, 2.0), (0.25, 1.0), (-4.0, -1.0), (3.0, 0.125)];
+    let dirs = [(1.0, 1.0), (1.0, -1.0), (2.0, 1.0), (1.0, -0.5), (-1.0, 2.0), (0.25, 1.0), (-4.0, -1.0), (3.0, 0.125),
+        // nearly parallel to axis-parallel, slope-2 and diagonal edges (direction determinants 2^-10 .. 2^-16)
+        (1.0, 0.0009765625), (-0.000244140625, 1.0), (1.0, 2.000244140625), (1.0, -1.0000152587890625), (-1.0, -2.0009765625)];
     let mut anchors: Vec<Point2> = v.iter().step_by(3).cloned().collect();
     anchors.push(*v.last().unwrap());
     anchors.push(p(cx, cy)); anchors.push(p(x0 - 1.5, cy)); anchors.push(p(cx, y1 + 1.5)); anchors.push(p(x1 + 2.25, y0 - 0.75));
@@ -280,7 +282,7 @@ fn check_surface_point(r: &mut Report, name: &str, curve: &Curve2, sp: &SurfaceP
 }
 
 pub fn run() -> Option<Report> {
-    let mut r = Report::new("43 polylines with 5..=40 edges on integer grids (zig-zags, combs, staircases, U shapes, closed rectangles / diamonds / octagons / star, rectangular spirals, open chains whose end vertex is the unique extreme) x per polyline: axis-parallel lines through every vertex coordinate, the box bounds, one unit outside and fractional offsets (5 origins before / inside / behind / on the box, 4 signed speeds) and oblique lines of 8 dyadic slopes through every third vertex, the last vertex and 4 off-grid anchors (origin on the anchor and 16 steps before / behind); surface points = the same lines with a unit normal; lines whose distinct crossings are closer than 1e-6 are excluded");
+    let mut r = Report::new("43 polylines with 5..=40 edges on integer grids (zig-zags, combs, staircases, U shapes, closed rectangles / diamonds / octagons / star, rectangular spirals, open chains whose end vertex is the unique extreme) x per polyline: axis-parallel lines through every vertex coordinate, the box bounds, one unit outside and fractional offsets (5 origins before / inside / behind / on the box, 4 signed speeds) and oblique lines of 13 dyadic slopes (5 of them nearly parallel to edges, direction determinants 2^-10 .. 2^-16) through every third vertex, the last vertex and 4 off-grid anchors (origin on the anchor and 16 steps before / behind); surface points = the same lines with a unit normal; lines whose distinct crossings are closer than 1e-6 are excluded");
     for (name, pts) in polylines() {
         let line = Polyline::new(pts.clone(), None);
         let curve = Curve2::from_points(&pts, 1e-6, false).ok();
